@@ -44,6 +44,15 @@ class Tr17(ExprTr):
             raise Untranslatable(f"`{ast.unparse(node)}`: only floor/ceil of a quotient by a positive literal")
         return super().int(node)
 
+    def bool(self, node: ast.AST) -> str:
+        # `x in (a, b, …)` / `x not in (…)` over integer literals
+        if isinstance(node, ast.Compare) and len(node.ops) == 1 and isinstance(node.ops[0], (ast.In, ast.NotIn)) \
+                and isinstance(node.comparators[0], (ast.Tuple, ast.List, ast.Set)) and node.comparators[0].elts:
+            x = self.int(node.left)
+            alts = " || ".join(f"({x} == {self.int(e)})" for e in node.comparators[0].elts)
+            return f"({alts})" if isinstance(node.ops[0], ast.In) else f"(!({alts}))"
+        return super().bool(node)
+
 
 # --------------------------------------------------------------------------------------------------------------
 def _value_of(binds, target, elt=None):
@@ -276,7 +285,7 @@ register("C17", [
     # Conv2dGRU block hyper-parameters
     Kernel("gru_kernel", RC, "Conv2dGRU.__init__", ["idx"], "(fun idx => if idx == 0 then 5 else 3)", _gru("kernel_size"), imports=SH),
     Kernel("gru_dilation", RC, "Conv2dGRU.__init__", ["idx"], "(fun idx => if idx == 1 then 2 else 1)", _gru("dilation"), imports=SH),
-    Kernel("gru_padding", RC, "Conv2dGRU.__init__", ["repl", "idx"], "(fun repl idx => if repl != 0 then 0 else if idx == 0 then 2 else 1)",
+    Kernel("gru_padding", RC, "Conv2dGRU.__init__", ["repl", "idx"], "(fun repl idx => if repl != 0 then 0 else if (idx == 0 || idx == 1) then 2 else 1)",
            _gru("padding"), imports=SH),
     Kernel("gru_repl_pad", RC, "Conv2dGRU.__init__", ["idx"], "(fun idx => if idx == 1 then 2 else if idx == 0 then 2 else 1)", _gru("repl_pad"), imports=SH),
 ])
